@@ -114,19 +114,10 @@ Proof.
     assert (mem_node (node_of (c, k)) removed = true) by (apply mem_node_In; exact Hx). congruence.
 Qed.
 
-Lemma clear_no_rg_Cleared st i :
+Lemma clear_reader_Cleared st i :
   mem_node (node_of i) (s_nodes st) = true ->
-  Cleared st (clear_no_rg st i) (descs_with st (node_of i)).
-Proof.
-  intros Hm. unfold clear_no_rg. rewrite Hm.
-  set (removed := descs_with st (node_of i)).
-  destruct (fold_clear_trace_fields removed (g_remove_nodes st removed)) as (A1 & A2 & A3 & A4 & A5 & A6 & A7 & A8 & A9 & A10).
-  destruct (g_remove_nodes_spec st removed) as (GN & GE).
-  constructor; try assumption.
-  - intros x. rewrite A5. apply GN.
-  - intros e. rewrite A6. apply GE.
-  - intros r j Hin Hj. rewrite A7. exact Hin.
-Qed.
+  Cleared st (clear_reader st i) (descs_with st (node_of i)).
+Proof. intros Hm. unfold clear_reader. now apply clear_with_descs_Cleared. Qed.
 
 (** * A clearing step whose removed set is closed under the edges keeps [Quiet] *)
 Lemma mem_node_false n l : mem_node n l = false <-> ~ In n l.
@@ -231,12 +222,8 @@ Proof.
   - unfold clear_with_descs. now rewrite Hm.
 Qed.
 
-Lemma Quiet_clear_no_rg st i : Quiet st -> Quiet (clear_no_rg st i).
-Proof.
-  intros Q. destruct (mem_node (node_of i) (s_nodes st)) eqn:Hm.
-  - eapply Quiet_cleared; [exact Q|now apply clear_no_rg_Cleared|apply descs_closed].
-  - unfold clear_no_rg. now rewrite Hm.
-Qed.
+Lemma Quiet_clear_reader st i : Quiet st -> Quiet (clear_reader st i).
+Proof. intros Q. unfold clear_reader. now apply Quiet_clear_with_descs. Qed.
 
 Lemma Quiet_fold {A} (f : state -> A -> state) l :
   (forall s a, Quiet s -> Quiet (f s a)) -> forall st, Quiet st -> Quiet (fold_left f l st).
